@@ -47,7 +47,7 @@ fn meta(prop: &str) -> (&'static str, Vec<&'static str>, serde_json::Value) {
             vec![
                 "SLICE: only storage-fault images of valid sources are explored (truncation at any byte, bit flips, sector zero-fill/duplicate/swap, splices of two files) — not arbitrary byte soup, not grammar-generated MACRO/CLASS/TIME/parameterization notation, not cyclic references: those need an input fuzzer, which is another technique family",
                 "a literal is always valid UTF-8 (images are converted lossily); invalid UTF-8 reaches the compiler only through file delivery",
-                "non-termination is detected by a CPU-time budget (RLIMIT_CPU, 60 s per batch of images against a typical 5-500 ms)",
+                "non-termination is detected by a CPU-time budget per image (RLIMIT_CPU re-armed before each image): 60 s + 1200 s * (n/100 KB)^2 against a typical 1-200 ms; the quadratic term exists because the lexer's block-comment scanner is quadratic in the length of an unterminated comment (about 100 s for 95 KB), which is slow but terminates and is therefore not a violation; images are cut at 48 KB (quick) / 160 KB (thorough)",
             ],
             serde_json::json!({"components": components, "rule": "a case = (valid base source, storage-fault image, delivery, backend): bases are the 892 corpus files (walked systematically) and generated module sets; images are truncations (biased to the last bytes), single-bit flips, 512-byte sector zero-fill/duplication/swap and splices; delivered as a literal or as a file read through the simulated disk (truncation/flip/zero-fill applied by the seam to the bytes in flight); both backends; every error and warning rendered with Display and contextualize. distinct = distinct (base hash, image, delivery); non-trivial = the image differs from the base"}),
         ),
